@@ -147,6 +147,8 @@ class Ob:
 
 
 def load_table(name, default):
+    if os.environ.get('VERIF_NO_TABLES'):     # maintainer mode for tools/triage.py
+        return default
     p = os.path.join(VERIF, name)
     if not os.path.exists(p):
         return default
@@ -206,6 +208,12 @@ class Report:
                     ob.status = 'known'
                     ob.why = k.get('what', '')
                     self.used_known.add((ob.rule, ob.key))
+        self.obs.append(ob)
+        return ob
+
+    def add_raw(self, rule, key, status, detail='', loc=''):
+        """record an obligation without consulting the reviewed / known tables"""
+        ob = Ob(rule, key, status == 'ok', detail, loc)
         self.obs.append(ob)
         return ob
 
@@ -291,6 +299,10 @@ class Report:
         os.makedirs(os.path.join(VERIF, 'evidence'), exist_ok=True)
         with open(os.path.join(VERIF, 'evidence', self.prop + '.json'), 'w') as f:
             json.dump(ev, f, indent=1)
+        dump = os.environ.get('VERIF_DUMP_OPEN')
+        if dump:
+            with open(dump, 'w') as f:
+                json.dump([o.to_json() for o in viol], f, indent=1)
         # output
         for o in known:
             print('KNOWN-FINDING: property=%s %s [%s %s] %s' % (self.prop, o.why, o.rule, o.key, o.loc))
